@@ -1467,3 +1467,14 @@ VP("C01-R3C-mut-bound-on-input", "C01", "flag form: bound compared with the unco
    "too_large = upper is not None and num > upper", "too_large = upper is not None and value > upper")
 VP("C01-R3C-mut-ifexp-fast-no-identity", "C01", "conditional-expression fast path without the identity test", "C01-R3C", "cincoconfig/fields/list_field.py",
    "        prevalidated = (\n            isinstance(iterable, ListProxy) and iterable.item_field is self.item_field\n        )", "        prevalidated = isinstance(iterable, ListProxy)")
+VP("C02-R3D-mut-table-bool-missing", "C04", "reader dispatch table loses the bool row: booleans come back as text", "C02-R3D", "cincoconfig/formats/xml.py",
+   '    "bool": _parse_bool,\n', "")
+VP("C02-R3D-mut-table-int-as-float", "C04", "reader dispatch table parses int elements with float", "C02-R3D", "cincoconfig/formats/xml.py",
+   '    "int": _parse_number(int),', '    "int": _parse_number(float),')
+VP("C02-R3D-mut-writer-int-before-bool", "C04", "guard-clause writer tests int before bool", "C02-R3D", "cincoconfig/formats/xml.py",
+   '    if isinstance(value, bool):  # before int: bool is a subclass of int\n        return "bool", "true" if value else "false"\n    if isinstance(value, int):\n        return "int", str(value)',
+   '    if isinstance(value, int):\n        return "int", str(value)\n    if isinstance(value, bool):\n        return "bool", "true" if value else "false"')
+VP("C02-R3D-mut-bool-text-yes", "C04", "pair form: booleans written as on/off words the reader does not know", "C02-R3D", "cincoconfig/formats/xml.py",
+   'return "bool", "true" if value else "false"', 'return "bool", "enabled" if value else "disabled"')
+VP("C02-R3D-mut-none-parser-text", "C04", "dispatch table: none elements come back as ''", "C02-R3D", "cincoconfig/formats/xml.py",
+   '    "none": lambda text: None,', '    "none": lambda text: text,')
